@@ -1,5 +1,9 @@
 /-
   C01 — Untrusted music data never crashes, corrupts memory or hangs the player (the part the sequencer model carries).
+  The loaders' model reads byte lists; every read past the end is an explicit branch (no `Fault` can arise from indexing).
+  Proved here: no parser step moves the cursor backwards, a delta time consumes at least one byte, and therefore the
+  track loop finishes within (track length + 1) iterations for every byte string — the fuel the model passes is never
+  the reason for a result, and loading takes a number of parser steps linear in the input.
 -/
 import OpnVerif.Model.Seq
 import OpnVerif.Model.Mus
@@ -19,5 +23,120 @@ theorem readVarLen_progress : ∀ (bs : Bytes) (acc v : Nat) (r : Bytes), readVa
       simp only [List.length_cons]; omega
     · simp only [Prod.mk.injEq, Option.some.injEq] at h
       rw [← h.2]; simp
+
+theorem parseSysEx_le (byte : Nat) (rest : Bytes) (status : Int) (ps : ParseSt) :
+    (parseSysEx byte rest status ps).2.1.length ≤ rest.length := by
+  unfold parseSysEx
+  have h := C07.readVarLen_le rest 0
+  split
+  · rename_i r heq; rw [heq] at h; exact h
+  · rename_i len r heq
+    rw [heq] at h
+    split
+    · exact h
+    · simp only [List.length_drop]; simp only at h; omega
+
+theorem parseMeta_le (rest : Bytes) (status : Int) (ps : ParseSt) :
+    (parseMeta rest status ps).2.1.length ≤ rest.length := by
+  unfold parseMeta
+  split
+  · simp
+  · rename_i evtype r0
+    have h := C07.readVarLen_le r0 0
+    split
+    · rename_i r heq; rw [heq] at h; simp only [List.length_cons]; simp only at h; omega
+    · rename_i len r heq
+      rw [heq] at h
+      simp only at h
+      split
+      · simp only [List.length_cons]; omega
+      · simp only [List.length_drop, List.length_cons]; omega
+
+theorem parseChannel_le (byte : Nat) (rest : Bytes) (status : Int) (ps : ParseSt) :
+    (parseChannel byte rest status ps).2.1.length ≤ rest.length := by
+  unfold parseChannel
+  split
+  · split <;> simp
+  · split
+    · split <;> simp <;> omega
+    · simp only
+      split
+      · split
+        · split
+          · simp; omega
+          · split <;> simp <;> omega
+        · simp
+      · split
+        · split <;> simp
+        · simp
+
+/-- **no parser step moves the cursor backwards** (every event is read inside the remaining track bytes) -/
+theorem parseEvent_le (bs : Bytes) (status : Int) (ps : ParseSt) : (parseEvent bs status ps).2.1.length ≤ bs.length := by
+  unfold parseEvent
+  split
+  · simp
+  · rename_i byte rest
+    split
+    · have := parseSysEx_le byte rest status ps; simp only [List.length_cons]; omega
+    · split
+      · have := parseMeta_le rest status ps; simp only [List.length_cons]; omega
+      · split
+        · exact parseChannel_le _ _ status ps
+        · have := parseChannel_le byte rest status ps; simp only [List.length_cons]; omega
+
+/-- **the track loop terminates on every byte string**: with more fuel than remaining bytes it never stops for lack of fuel
+    (each round that continues has read a delta time, i.e. at least one byte) -/
+theorem trackLoop_fuel : ∀ (fuel : Nat) (bs : Bytes) (status : Int) (b : BuildSt) (absPos : Nat) (cur : Row) (states : List Nat) (rows : List Row),
+    bs.length < fuel → trackLoop fuel bs status b absPos cur states rows ≠ .error "fuel"
+  | 0, _, _, _, _, _, _, _, h => by omega
+  | fuel + 1, bs, status, b, absPos, cur, states, rows, h => by
+    unfold trackLoop
+    simp only
+    have hle := parseEvent_le bs status b.ps
+    generalize hpe : parseEvent bs status b.ps = pe at hle
+    obtain ⟨ev, bs1, status1, ps1⟩ := pe
+    simp only at hle ⊢
+    split
+    · simp
+    · -- the delta time behind the event
+      by_cases hend : ev.subtype != stEndTrack
+      · simp only [hend, if_true]
+        cases hrv : readVarLen bs1 0 with
+        | mk v r =>
+          cases v with
+          | none =>
+            simp only
+            split <;> simp
+          | some d =>
+            have hp := readVarLen_progress bs1 0 d r hrv
+            simp only
+            have hsub : (ev.subtype == stEndTrack) = false := by simpa using hend
+            simp only [hsub, Bool.false_and, Bool.false_eq_true, if_false, Bool.or_false]
+            split
+            · exact trackLoop_fuel fuel r status1 _ _ _ _ _ (by omega)
+            · exact trackLoop_fuel fuel r status1 _ _ _ _ _ (by omega)
+      · have hsub : (ev.subtype != stEndTrack) = false := by simpa using hend
+        have hsub' : (ev.subtype == stEndTrack) = true := by simpa using hend
+        simp only [hsub, Bool.false_eq_true, if_false, hsub', Bool.or_true, if_true]
+        split <;> simp
+
+/-- building a track never fails for lack of fuel: the result is a property of the bytes alone -/
+theorem buildTrack_fuel (tk : Nat) (bs : Bytes) (b : BuildSt) : buildTrack tk bs b ≠ .error "fuel" := by
+  unfold buildTrack
+  split
+  · simp
+  · rename_i d rest heq
+    have hp := readVarLen_progress bs 0 d rest heq
+    simp only
+    generalize ({ delay := d, absPos := 0, events := if tk == 0 then [{ type := tSpecial, subtype := stSongBegin }] else [] } : Row) = first
+    have hf := trackLoop_fuel (bs.length + 2) rest 0 b (d % W) {} [] [first] (by omega)
+    cases hr : trackLoop (bs.length + 2) rest 0 b (d % W) {} [] [first] with
+    | error e =>
+      simp only
+      intro h
+      injection h with h
+      rw [h] at hr
+      exact hf hr
+    | ok p => simp
 
 end Opn.C01
